@@ -1,7 +1,22 @@
-(* Linearizability of the list-bin protocol (C01, C08 stage S1). *)
+(* Linearizability of the list-bin protocol (C01, C08 stage S1).
+
+   Layers:
+   0. list / shared-memory update lemmas (upd_list, set_cell, set_bin, set_lock, alloc).
+   1. `binv`, the shared-memory invariant of Model/BinProto.v: every bin's live list is a finite
+      path (`pseg`) of allocated nodes whose keys are pairwise distinct and hash to the bin; all
+      `cnext` pointers (also those of unlinked nodes) go to strictly larger allocated addresses;
+      a lock is held by the thread whose pc says so; a thread past its re-validation step holds
+      the lock of the current head of its bin and has walked a prefix without its key.  Preserved
+      by `step` (`binv_step`), hence `binproto_inv`; deadlock freedom follows.
+   2. for a fixed key k: the abstract value `absv` (= `lookup`), the effect of the five kinds of
+      writes on it (`kview`), the two-state relation `hs_rel` behind hindsight, and the hindsight
+      lemma for lock-free readers (`hindsight`, `reader_view`).
+   3. the ghost state (trace of past shared states, linearization point of every completed call
+      and of every pending call whose result is decided) and its invariant `LIN`, preserved by
+      `step` (`LIN_step`); writers have fixed linearization steps, readers get theirs in hindsight.
+   4. assembly (Proofs/BinProtoLemmas.v: `assemble`) and the final theorems. *)
 From Flurry Require Import Model.BinProto Proofs.LinProofs Proofs.BinProtoLemmas.
-From Coq Require Import List Bool Lia Permutation NArith Arith.
-From Hammer Require Import Tactics.
+From Coq Require Import List Bool Lia Permutation NArith Arith Sorted.
 Import ListNotations.
 Local Open Scope nat_scope.
 
@@ -1061,6 +1076,26 @@ Qed.
 
 Theorem binproto_inv progs sched : binv (run (init progs) sched).
 Proof. apply binv_run. apply binv_init. Qed.
+
+(* live lists are strictly increasing in addresses, hence acyclic *)
+Lemma pseg_sorted s : ptr_inc s -> forall l p, pseg (heap s) p l None ->
+  Forall (fun a => a < length (heap s)) l -> Sorted lt l.
+Proof.
+  intros Hi. induction l as [|a l IH]; intros p Hs Hf; [constructor|].
+  apply pseg_cons_inv in Hs as [-> Hs]. inversion Hf as [|? ? Ha Hf']; subst. constructor; [eapply IH; eassumption|].
+  destruct l as [|b l]; constructor. apply pseg_cons_inv in Hs as [Hb _]. rewrite <- cell_at_cellh in Hb.
+  apply (Hi _ _ Ha Hb).
+Qed.
+
+Theorem binproto_live_sorted progs sched i :
+  i < nbins -> exists l, bin_ok (sh (run (init progs) sched)) i l /\ StronglySorted lt l.
+Proof.
+  intros Hi. destruct (binproto_inv progs sched) as ((_ & _ & Hp & Hbins) & _).
+  destruct (Hbins i Hi) as (l & Hok). exists l. split; [exact Hok|].
+  apply Sorted_StronglySorted; [intros x y z; apply Nat.lt_trans|].
+  destruct Hok as (Hs & Hf & _). eapply pseg_sorted; [exact Hp|exact Hs|].
+  eapply Forall_impl; [|exact Hf]. cbn. tauto.
+Qed.
 
 (* ---------- deadlock freedom ---------- *)
 Lemma forallb_false {A} (f : A -> bool) l : forallb f l = false -> exists x, In x l /\ f x = false.
@@ -2460,10 +2495,12 @@ Proof. vm_compute. reflexivity. Qed.
 Example ex_linearizable : linearizable None (key_history ex_cfg 5) (Some (lookup (fun x => x) 2 ex_cfg 5)).
 Proof. apply lin_b_sound. exact ex_lin_b. Qed.
 (* the theorem applies to it *)
-Example ex_by_theorem : linearizable None (key_history ex_cfg 5) (Some (lookup (fun x => x) 2 ex_cfg 5)).
-Proof. apply (binproto_linearizable (fun x => x) 2 ex_progs ex_sched 5); [lia|exact ex_done]. Qed.
+Example ex_by_theorem :
+  all_done ex_cfg = true -> linearizable None (key_history ex_cfg 5) (Some (lookup (fun x => x) 2 ex_cfg 5)).
+Proof. unfold ex_cfg. apply binproto_linearizable. lia. Qed.
 
 Print Assumptions binproto_inv.
+Print Assumptions binproto_live_sorted.
 Print Assumptions binproto_deadlock_free.
 Print Assumptions binproto_linearizable.
 Print Assumptions binproto_linearizable_inv.
